@@ -58,7 +58,7 @@ func Write(w io.Writer, scalerType uint32, tables map[string][]byte) (int64, err
 	}
 
 	// temporarily clear the checksum in the "head" table
-	if headData, ok := tables["head"]; ok {
+	if headData, ok := tables["head"]; ok && len(headData) >= 12 {
 		clearChecksum(headData)
 	}
 
@@ -89,7 +89,7 @@ func Write(w io.Writer, scalerType uint32, tables map[string][]byte) (int64, err
 	totalSum += checksum(headerBytes)
 
 	// set the final checksum in the "head" table
-	if headData, ok := tables["head"]; ok {
+	if headData, ok := tables["head"]; ok && len(headData) >= 12 {
 		patchChecksum(headData, totalSum)
 	}
 
